@@ -107,13 +107,19 @@ theorem selOf_congr (env : Env) (s s' : State E) (hc : causeOf s' = causeOf s) (
     selOf env s' = selOf env s := by
   unfold selOf; rw [hc, hR]
 
+theorem vis_congr (env : Env) (s s' : State E) (hc : causeOf s' = causeOf s) (hR : s'.resumed = s.resumed)
+    (hP : s'.P = s.P) : vis env s' = vis env s := by
+  have hcfg : cfgOf env s' = cfgOf env s := by unfold cfgOf; rw [hc, selOf_congr env s s' hc hR]
+  unfold vis
+  rw [hcfg, hc, hP]
+
 theorem info_changedOf (env : Env) (s s' : State E) (hc : causeOf s' = causeOf s) (hP : s'.P = s.P)
     (hb : s'.base = s.base) (he : s'.ess = s.ess) (hR : s'.resumed = s.resumed) (hh : isHandler s = false) :
     changedOf env s' = changedOf env s := by
   have hcfg : cfgOf env s' = cfgOf env s := by unfold cfgOf; rw [hc, selOf_congr env s s' hc hR]
   have hr : handlerReasons.contains (cfgOf env s).reason = false := hh
   unfold changedOf pass
-  rw [hcfg, hP, hb, he, cycle_not_handler_reason _ _ s'.now s'.now env.exec hr,
+  rw [vis_congr env s s' hc hR hP, hcfg, hP, hb, he, cycle_not_handler_reason _ _ s'.now s'.now env.exec hr,
     cycle_not_handler_reason _ _ s.now s.now env.exec hr]
 
 /-- the cause FREE: marked for deletion and not held by the own finalizer -/
@@ -146,37 +152,40 @@ theorem core_adjusted (env : Env) (s s' : State E) (hP : s'.P = s.P) (hb : s'.ba
   · rw [core_handling env s hpm (unmarked_not_free s hm), core_handling env s' hpm (unmarked_not_free s' hm'), hih]
     by_cases hh : isHandler s = true
     · simp only [hh, Bool.not_true, Bool.false_eq_true, if_false]
-      rw [extrasOf_eq, extrasOf_eq, hcfg, hsel, hP, extras_now_indep (cfgOf env s) s.P s'.now s.now]
-      have h1 := Av_mono (selOf env s) s.P hn
-      have h2 := Cv_mono env.cap (selOf env s) s.P hn
+      rw [extrasOf_eq, extrasOf_eq, vis_congr env s s' hc hR hP, hcfg, hsel,
+        extras_now_indep (cfgOf env s) (vis env s) s'.now s.now]
+      have h1 := Av_mono (selOf env s) (vis env s) hn
+      have h2 := Cv_mono env.cap (selOf env s) (vis env s) hn
       omega
     · have hh' : isHandler s = false := by simpa using hh
       simp only [hh', Bool.not_false, if_true]
       rw [info_changedOf env s s' hc hP hb he hR hh']
       exact Nat.le_refl _
   · have hpm' : env.prematch = false := by simpa using hpm
-    rw [core_purging env s (Or.inl hpm'), core_purging env s' (Or.inl hpm'), leftovers_congr env s s' hP]
+    rw [core_blind env s hpm', core_blind env s' hpm']
     exact Nat.le_refl _
 
 theorem core_pos (env : Env) (s : State E) : 1 ≤ core env s := by
   unfold core
   split
-  · split <;> omega
+  · omega
   · split
     · split <;> omega
-    · omega
+    · split
+      · split <;> omega
+      · omega
 
 theorem core_ge_two (env : Env) (s : State E) (hpm : env.prematch = true) (hh : isHandler s = true) :
     2 ≤ core env s := by
   rw [core_handling env s hpm (handler_not_free s hh)]
   simp only [hh, Bool.not_true, Bool.false_eq_true, if_false]
-  have := two_U_add_A_pos (selOf env s) s.P s.now
+  have := two_U_add_A_pos (selOf env s) (vis env s) s.now
   omega
 
 /-- a marked object without the own finalizer: the cause is FREE; no handlers, the leftover records are purged -/
-theorem core_free (env : Env) (s : State E) (hm : s.marked = true) (hb : s.blocked = false) :
+theorem core_free (env : Env) (s : State E) (hpm : env.prematch = true) (hm : s.marked = true) (hb : s.blocked = false) :
     core env s = if leftovers env s then 2 else 1 :=
-  core_purging env s (Or.inr ((free_iff s).2 ⟨hm, hb⟩))
+  core_purging env s hpm ((free_iff s).2 ⟨hm, hb⟩)
 
 theorem bound_eq_hbound (env : Env) (s : State E) (hg : s.gone = false) (ha : adjusting env s = false) :
     bound env s = hbound env s := by
@@ -220,7 +229,7 @@ theorem release_purges (env : Env) (s : State E) (hrun : (decisionOf env s).hand
         cases he : (cfgOf env s).selected.isEmpty
         · rfl
         · exfalso
-          have := cycle_no_handlers (cfgOf env s) s.P s.now s.now env.exec hr he
+          have := cycle_no_handlers (cfgOf env s) (vis env s) s.now s.now env.exec hr he
           unfold pass at hc
           rw [this] at hc
           cases hc
@@ -236,34 +245,41 @@ theorem release_purges (env : Env) (s : State E) (hrun : (decisionOf env s).hand
     · rfl
   refine ⟨hmk, hbl, hh, hcl, ?_⟩
   cases he : (cfgOf env s).selected.isEmpty
-  · exact closed_purges (cfgOf env s) s.P s.now s.now env.exec hr he hcl
-  · exact (closed_purges_skip (cfgOf env s) s.P s.now s.now env.exec hr he).2
+  · exact closed_purges (cfgOf env s) (vis env s) s.now s.now env.exec hr he hcl
+  · exact (closed_purges_skip (cfgOf env s) (vis env s) s.now s.now env.exec hr he).2
 
 theorem adjusting_congr (env : Env) (s s' : State E) (hb : s'.blocked = s.blocked) (hm : s'.marked = s.marked) :
     adjusting env s' = adjusting env s := by
   rw [adjusting_eq, adjusting_eq, hb, hm]
 
-/-- the turn without handlers (blind, or FREE) strictly decreases the bound -/
+/-- the turn on an object the framework is blind to: nothing pending afterwards -/
+theorem blind_decreases (env : Env) (s : State E) (hp : s.pending = true) (hg : s.gone = false)
+    (ha : adjusting env s = false) (hpm : env.prematch = false) :
+    bound env (blindTurn env s) < bound env s := by
+  have hbs : bound env s = 1 := by
+    unfold bound; rw [core_blind env s hpm]; simp [hp, hg, ha]
+  rw [hbs]
+  unfold bound blindTurn
+  simp
+
+/-- the turn without handlers on a FREE object strictly decreases the bound -/
 theorem purge_decreases (env : Env) (s : State E) (hp : s.pending = true) (hg : s.gone = false)
-    (ha : adjusting env s = false) (hpur : env.prematch = false ∨ (causeOf s).reason = .free) :
+    (ha : adjusting env s = false) (hpm : env.prematch = true) (hpur : (causeOf s).reason = .free) :
     bound env (purgeTurn env s) < bound env s := by
   have hbs : bound env s = if leftovers env s then 2 else 1 := by
-    unfold bound; rw [core_purging env s hpur]; simp [hp, hg, ha]
+    unfold bound; rw [core_purging env s hpm hpur]; simp [hp, hg, ha]
   rw [hbs]
   rcases purgeTurn_cases env s with ⟨hl, h⟩ | ⟨hl, h⟩
   · have hl' := purgeTurn_norec_next env s
-    have hpur' : env.prematch = false ∨ (causeOf (purgeTurn env s)).reason = .free := by
-      rcases hpur with h1 | h1
-      · exact Or.inl h1
-      · right
-        have := (free_iff s).1 h1
-        rw [h]
-        exact (free_iff _).2 this
+    have hpur' : (causeOf (purgeTurn env s)).reason = .free := by
+      have := (free_iff s).1 hpur
+      rw [h]
+      exact (free_iff _).2 this
     have ha' : adjusting env (purgeTurn env s) = false := by
       rw [h]; exact (adjusting_congr env s _ rfl rfl).trans ha
     have hg' : (purgeTurn env s).gone = false := by rw [h]; exact hg
     unfold bound
-    rw [ha', core_purging env _ hpur', hl', hg', hl]
+    rw [ha', core_purging env _ hpm hpur', hl', hg', hl]
     simp
     split <;> omega
   · rw [h, hl]
@@ -326,8 +342,8 @@ theorem step_decreases (env : Env) (wf : WF env) (s : State E)
       simp only [if_true]
       by_cases hpm : env.prematch = true
       · -- the framework sees the object: records as they were
-        have hPR : (remState env s false).P = s.P := by simp [remState, hpm]
-        have hnR : s.now ≤ (remState env s false).now := by simp [remState, hpm]; exact hlat
+        have hPR : (remState env s false).P = s.P := rfl
+        have hnR : s.now ≤ (remState env s false).now := hlat
         cases hmk : s.marked
         · have hcore := core_adjusted env s (remState env s false) hPR rfl rfl rfl rfl rfl hmk hmk hnR
           omega
@@ -337,21 +353,12 @@ theorem step_decreases (env : Env) (wf : WF env) (s : State E)
             simp [hmk, hbl, C14.reasonStr]
             decide
           have h2 := core_ge_two env s hpm hh
-          have := core_free env (remState env s false) hmk rfl
+          have := core_free env (remState env s false) hpm hmk rfl
           rw [this]
           split <;> omega
-      · -- blind: the leftovers went out with the finalizer
+      · -- blind: only the finalizer goes; the next turn is a blind one
         have hpm' : env.prematch = false := by simpa using hpm
-        have hl : leftovers env (remState env s false) = false := by
-          cases hlo : leftovers env s
-          · have hPR : (remState env s false).P = s.P := by simp [remState, hlo]
-            exact (leftovers_congr env s _ hPR).trans hlo
-          · apply leftovers_false_of_norec
-            intro i hi
-            simp only [remState, hpm', hlo, Bool.not_false, Bool.and_self, if_true]
-            exact purged_owned env s hi
-        rw [core_purging env _ (Or.inl hpm'), hl]
-        simp only [Bool.false_eq_true, if_false]
+        rw [core_blind env _ hpm']
         omega
     · have hpR : (remState env s true).pending = false := rfl
       have hbR : bound env (remState env s true) = 0 := by unfold bound; rw [hpR]; simp
@@ -365,10 +372,10 @@ theorem step_decreases (env : Env) (wf : WF env) (s : State E)
   rotate_left
   · -- blind: no handlers; leftover records are purged
     have hpm' : env.prematch = false := by simpa using hpm
-    have hst : loopStep env s = purgeTurn env s := by
+    have hst : loopStep env s = blindTurn env s := by
       unfold loopStep; simp [hp, hg', hadd', hrem', hrun, hpm']
     rw [hst]
-    exact purge_decreases env s hp hg' hadj (Or.inl hpm')
+    exact blind_decreases env s hp hg' hadj hpm'
   rw [hpm] at hrun
   by_cases hrel : (decisionOf env s).release = true
   · -- the closing pass of a deletion: the own finalizer goes with it
@@ -386,7 +393,7 @@ theorem step_decreases (env : Env) (wf : WF env) (s : State E)
       have hl : leftovers env (releaseTurn env s) = false :=
         leftovers_false_of_norec env _ (fun i hi => hnone i hi)
       have hfree : core env (releaseTurn env s) = 1 := by
-        rw [core_free env (releaseTurn env s) (by simp [releaseTurn, nextState, hmk]) (by simp [releaseTurn, nextState]), hl]
+        rw [core_free env (releaseTurn env s) hpm (by simp [releaseTurn, nextState, hmk]) (by simp [releaseTurn, nextState]), hl]
         rfl
       unfold bound
       rw [hadj', hfree]
@@ -398,7 +405,7 @@ theorem step_decreases (env : Env) (wf : WF env) (s : State E)
     have hst : loopStep env s = purgeTurn env s := by
       unfold loopStep; simp [hp, hg', hadd', hrem', hrun, hrel', hfr]
     rw [hst]
-    exact purge_decreases env s hp hg' hadj (Or.inr hfr)
+    exact purge_decreases env s hp hg' hadj hpm hfr
   -- the handling pass
   have hst : loopStep env s = handleTurn env s := by
     unfold loopStep; simp [hp, hg', hadd', hrem', hrun, hrel', hfr]
@@ -409,12 +416,12 @@ theorem step_decreases (env : Env) (wf : WF env) (s : State E)
     · exfalso
       have hh : isHandler s = true := by
         cases hh : isHandler s
-        · have := (cycle_not_handler_reason_invoked (cfgOf env s) s.P s.now s.now env.exec hh).2
+        · have := (cycle_not_handler_reason_invoked (cfgOf env s) (vis env s) s.now s.now env.exec hh).2
           unfold pass at hc
           rw [this] at hc; cases hc
         · rfl
       have hbl := handler_marked_blocked s hh hmk
-      have hd := closed_delays_nil (cfgOf env s) s.P s.now s.now env.exec hc
+      have hd := closed_delays_nil (cfgOf env s) (vis env s) s.now s.now env.exec hc
       have : (decisionOf env s).release = true := by
         rw [dec_rel, hrun]
         unfold pass
@@ -441,7 +448,7 @@ theorem turn_cases (env : Env) (s : State E) (hp : s.pending = true) (hg : s.gon
         loopStep env s = addState env s) ∨
     ((decisionOf env s).removeUnneeded = true ∧ s.blocked = true ∧
         loopStep env s = remState env s (s.marked && !env.foreignFins)) ∨
-    (adjusting env s = false ∧ env.prematch = false ∧ loopStep env s = purgeTurn env s) ∨
+    (adjusting env s = false ∧ env.prematch = false ∧ loopStep env s = blindTurn env s) ∨
     (adjusting env s = false ∧ env.prematch = true ∧ s.marked = true ∧ s.blocked = true ∧
         (decisionOf env s).release = true ∧ loopStep env s = releaseTurn env s) ∨
     (adjusting env s = false ∧ env.prematch = true ∧ s.marked = true ∧ s.blocked = false ∧
@@ -491,12 +498,12 @@ theorem turn_cases (env : Env) (s : State E) (hp : s.pending = true) (hg : s.gon
   · exfalso
     have hh : isHandler s = true := by
       cases hh : isHandler s
-      · have := (cycle_not_handler_reason_invoked (cfgOf env s) s.P s.now s.now env.exec hh).2
+      · have := (cycle_not_handler_reason_invoked (cfgOf env s) (vis env s) s.now s.now env.exec hh).2
         unfold pass at hc
         rw [this] at hc; cases hc
       · rfl
     have hbl := handler_marked_blocked s hh hmk
-    have hd := closed_delays_nil (cfgOf env s) s.P s.now s.now env.exec hc
+    have hd := closed_delays_nil (cfgOf env s) (vis env s) s.now s.now env.exec hc
     have : (decisionOf env s).release = true := by
       rw [dec_rel, hrun]
       unfold pass
